@@ -384,9 +384,10 @@ func (t *Tpl) writeNode(w io.Writer, node *node, ctx *Ctx) (err error) {
 			r = ctx.BufB
 			// Set var, ok to context.
 			lv, lr := byteconv.B2S(node.condOKL), byteconv.B2S(node.condOKR)
-			ins, err := GetInspector(lv, byteconv.B2S(node.condIns))
-			if err != nil {
-				return err
+			// Note: don't shadow err here, the errors of the branches below must reach the caller.
+			ins, insErr := GetInspector(lv, byteconv.B2S(node.condIns))
+			if insErr != nil {
+				return insErr
 			}
 			raw := ctx.bufX
 			ctx.Set(lv, raw, ins)
